@@ -22,6 +22,8 @@ use crate::version::registry::Registry;
 /// Cached parsed packages for a document
 struct DocumentCache {
     packages: Vec<PackageInfo>,
+    /// Latest text of the document (full sync), used when diagnostics are re-published
+    content: String,
 }
 
 pub struct Backend<S: VersionStorer> {
@@ -104,7 +106,13 @@ impl<S: VersionStorer> Backend<S> {
             .unwrap_or_default();
 
         let mut docs = self.documents.write().expect("documents lock poisoned");
-        docs.insert(uri.clone(), DocumentCache { packages });
+        docs.insert(
+            uri.clone(),
+            DocumentCache {
+                packages,
+                content: content.to_string(),
+            },
+        );
     }
 
     /// Check if a registry is enabled in the configuration
@@ -298,6 +306,7 @@ impl<S: VersionStorer> Backend<S> {
             let client = self.client.clone();
             let parser = resolver.parser().clone();
             let matcher = resolver.matcher().clone();
+            let documents = self.documents.clone();
 
             tokio::spawn(async move {
                 debug!("Background task started for fetching packages");
@@ -315,7 +324,17 @@ impl<S: VersionStorer> Backend<S> {
                         )
                         .await;
 
-                    let diagnostics = generate_diagnostics(&*parser, &*matcher, &*storer, &content);
+                    // Re-publish from the document's current text: it may have been edited
+                    // (or closed) while the fetch was in flight
+                    let current = {
+                        let docs = documents.read().expect("documents lock poisoned");
+                        docs.get(&uri).map(|doc| doc.content.clone())
+                    };
+                    let Some(current) = current else {
+                        return;
+                    };
+
+                    let diagnostics = generate_diagnostics(&*parser, &*matcher, &*storer, &current);
 
                     client.publish_diagnostics(uri, diagnostics, None).await;
                 }
